@@ -20,6 +20,8 @@ ASSUMPTIONS = ["PARTIAL: the GenBank round trip is Biopython I/O outside the Lea
 
 
 def check_case(ctx, case):
+    if "modA" in case:
+        return check_two_level(ctx, case)
     from Bio import SeqIO
     op = asm.asm_op(case)
     ents = impl.build_entities(op[3], op[4])
@@ -96,9 +98,136 @@ def check_case(ctx, case):
     ctx.op(asm.asm_op(case2), None)
 
 
+def tiles(spans, N):
+    """is there a subset of the candidate spans that covers [0, N) exactly once?"""
+    by_start = {}
+    for s, e, name in spans:
+        if e > s:
+            by_start.setdefault(s, []).append((e, name))
+    seen = set()
+
+    def go(pos):
+        if pos == N:
+            return []
+        if pos in seen:
+            return None
+        seen.add(pos)
+        for e, name in sorted(by_start.get(pos, []), reverse=True):
+            r = go(e)
+            if r is not None:
+                return [(pos, e, name)] + r
+        return None
+    return go(0)
+
+
+def provenance_ok(ctx, prod, inputs, case, level):
+    """generated source features naming this level's inputs tile the product, each stretch verbatim in its plasmid"""
+    seq = str(prod.seq)
+    by_id = {e.record.id: e for e in inputs}
+    cands = []
+    for f in prod.features:
+        if f.type == "source" and len(f.location.parts) == 1 and f.qualifiers.get("plasmid") in by_id \
+                and f.qualifiers.get("label") == "source: {}".format(f.qualifiers["plasmid"]):
+            cands.append((int(f.location.start), int(f.location.end), f.qualifiers["plasmid"]))
+    t = tiles(cands, len(seq))
+    if t is None:
+        ctx.fail("level {}: the generated source features naming the inputs {} do not tile the product: {}".format(
+            level, sorted(by_id), sorted(cands)), case)
+        return
+    if len(t) != len(inputs) - sum(1 for e in inputs if e.record.id not in {n for _, _, n in t}) or \
+            {n for _, _, n in t} - set(by_id):
+        pass
+    for s, e, name in t:
+        sw = str(by_id[name].record.seq)
+        if seq[s:e] not in sw * 2:
+            ctx.fail("level {}: the stretch [{}:{}] attributed to {} is not in that plasmid".format(level, s, e, name), case)
+            return
+
+
+def check_two_level(ctx, case):
+    """a product re-used as a module of the next level (inner provenance features nested in outer ones)"""
+    import warnings
+    A, B = asm.enzyme(case["A"]), asm.enzyme(case["B"])
+    MA, VA = impl.generic_classes(A)
+    MB, VB = impl.generic_classes(B)
+    def rec(word, rid):
+        return impl.CircularRecord(impl.Seq(word), id=rid, name=rid, annotations={"molecule_type": "DNA"})
+    with warnings.catch_warnings():
+        warnings.simplefilter("ignore")
+        m1 = MA(rec(case["modA"], "r1"))
+        v1 = VA(rec(case["vecA"], "r0"))
+        try:
+            p1 = v1.assemble(m1, id=case["id1"], name="lvl1")
+        except Exception as e:  # noqa
+            ctx.fail("two-level: level 1 fails: {}".format(type(e).__name__), case)
+            return
+        provenance_ok(ctx, p1, [v1, m1], case, 1)
+        m2 = MB(p1)
+        v2 = VB(rec(case["vecB"], "r9"))
+        if not m2.is_valid():
+            ctx.note("two-level-skipped")
+            return
+        try:
+            p2 = v2.assemble(m2, id=case["id2"], name="lvl2")
+        except Exception as e:  # noqa
+            ctx.fail("two-level: the level-1 product cannot be assembled at level 2: {}: {}".format(
+                type(e).__name__, str(e)[:80]), case)
+            return
+        provenance_ok(ctx, p2, [v2, m2], case, 2)
+        if p2.id != case["id2"]:
+            ctx.fail("two-level: product id", case)
+        # the inner provenance features are inherited as ordinary features
+        inner = [f for f in p2.features if f.type == "source" and f.qualifiers.get("plasmid") == "r1"]
+        if not inner:
+            ctx.fail("two-level: the provenance feature of the level-1 module, which lies inside the level-2 fragment, "
+                     "is not inherited by the level-2 product", case)
+    ctx.note("two-level")
+    ctx.case(case, nontrivial=True)
+
+
+def gen_two_level(rng):
+    import boot
+    enzs = [e for e in boot.supported_enzymes() if len(e.site) >= 5]
+    A, B = rng.sample(enzs, 2)
+    if A.site in (B.site, gen.rc(B.site)):
+        return None
+    fb = (A.site, gen.rc(A.site), B.site, gen.rc(B.site))
+    kb, ka = abs(B.ovhg), abs(A.ovhg)
+    ob = gen.distinct_overhangs(rng, kb, 2, fb)
+    oa = gen.distinct_overhangs(rng, ka, 2, fb)
+    if len(ob) < 2 or len(oa) < 2:
+        return None
+    offb, offa = B.fst5 - len(B.site), A.fst5 - len(A.site)
+    for _ in range(200):
+        # the level-1 vector carries the level-2 sites in its backbone, on either side of the insertion point,
+        # so that the level-2 fragment contains the whole level-1 module fragment (nested provenance)
+        r0 = gen.rnd_avoid(rng, rng.randint(0, 5), fb)
+        r1 = gen.rnd_avoid(rng, rng.randint(0, 5), fb)
+        back = r1 + ob[1] + gen.rnd_avoid(rng, offb, fb) + gen.rc(B.site) + gen.rnd_avoid(rng, rng.randint(0, 6), fb) + \
+            B.site + gen.rnd_avoid(rng, offb, fb) + ob[0] + r0
+        vecA = oa[1] + back + oa[0] + gen.rnd_avoid(rng, offa, fb) + gen.rc(A.site) + \
+            gen.rnd_avoid(rng, rng.randint(0, 6), fb) + A.site + gen.rnd_avoid(rng, offa, fb)
+        modA = A.site + gen.rnd_avoid(rng, offa, fb) + oa[0] + gen.rnd_avoid(rng, rng.randint(2, 10), fb) + oa[1] + \
+            gen.rnd_avoid(rng, offa, fb) + gen.rc(A.site) + gen.rnd_avoid(rng, rng.randint(0, 8), fb)
+        vecB = ob[1] + gen.rnd_avoid(rng, rng.randint(2, 10), fb) + ob[0] + gen.rnd_avoid(rng, offb, fb) + gen.rc(B.site) + \
+            gen.rnd_avoid(rng, rng.randint(0, 6), fb) + B.site + gen.rnd_avoid(rng, offb, fb)
+        ok = all(gen.circ_count(w, x.site) + gen.circ_count(w, gen.rc(x.site)) == c for w, x, c in
+                 [(modA, A, 2), (modA, B, 0), (vecA, A, 2), (vecA, B, 2), (vecB, B, 2), (vecB, A, 0)])
+        if ok:
+            return {"A": str(A), "B": str(B), "modA": gen.rot(modA, rng.randrange(len(modA))),
+                    "vecA": gen.rot(vecA, rng.randrange(len(vecA))), "vecB": gen.rot(vecB, rng.randrange(len(vecB))),
+                    "id1": rng.choice(["assembly", "r1", "r0", "lvl1x", "r1"]),
+                    "id2": rng.choice(["assembly", "final", "r9"])}
+    return None
+
+
 def run(ctx):
     rng = ctx.rng
     from wire import feats_to_json
+    for _ in range(ctx.budget(120, 4000)):
+        c2 = gen_two_level(rng)
+        if c2 is not None:
+            check_two_level(ctx, c2)
     alphabet = "ABCDEFGHIJKLMNOPQRSTUVWXYZabcdefghijklmnopqrstuvwxyz0123456789_"
     for enz in asm.pick_enzymes(rng, ctx.budget(250, 10000)):
         g = asm.gen_wellformed(rng, enz, rng.randint(1, 5))
